@@ -452,6 +452,12 @@ class Engine:
         fr.env = dict(cur_env)
         fr.env.update(ctx.entry_env)
         try:
+            for lbl, e in ct.lets.items():          # abbreviations over the entry state are usable in raises conditions
+                if "result" not in e:
+                    try:
+                        ctx.ghost[lbl] = interp.eval_old(self.parse_spec(e))
+                    except Unsupported:
+                        pass
             if kind == "raise":
                 allowed = None
                 for exc, cond in ct.raises.items():
